@@ -38,7 +38,7 @@ static pthread_mutex_t g_mu = PTHREAD_MUTEX_INITIALIZER;
 
 typedef struct Inst {
     int         idx, is_dec;
-    int         w, h, n, bits, kind, delay_ms, threads;
+    int         w, h, n, bits, kind, delay_ms, threads, hold_ms; /* hold: pause between init_handle and set_parameter */
     uint32_t    cseed;
     const char *file;
     const char *sets[64];
@@ -126,6 +126,8 @@ static void *enc_main(void *arg) {
             pthread_barrier_wait(&g_barrier);
         return NULL;
     }
+    if (in->hold_ms)
+        usleep((useconds_t)in->hold_ms * 1000u);
     cfg.source_width      = (uint32_t)in->w;
     cfg.source_height     = (uint32_t)in->h;
     cfg.encoder_bit_depth = (uint32_t)in->bits;
@@ -340,6 +342,7 @@ static void parse_inst(Inst *in, char *spec) {
         else if (!strncmp(t, "cseed=", 6)) in->cseed = (uint32_t)atoi(t + 6);
         else if (!strncmp(t, "delay=", 6)) in->delay_ms = atoi(t + 6);
         else if (!strncmp(t, "threads=", 8)) in->threads = atoi(t + 8);
+        else if (!strncmp(t, "hold=", 5)) in->hold_ms = atoi(t + 5);
         else if (!strncmp(t, "file=", 5)) in->file = t + 5;
         else if (!strncmp(t, "set=", 4) && in->nsets < 64) in->sets[in->nsets++] = t + 4;
     }
